@@ -24,11 +24,11 @@ directory listing order, temp-file names.  See DESIGN.md section 4, C13.
 
 import collections
 import configparser
+import errno
 import importlib
 import io
 import os
 import re
-import shutil
 
 import jinja2
 
@@ -235,8 +235,18 @@ class _ObservedWatcher(dirwatch.DirWatcher):
         return events
 
 
-class _MgrDied(Exception):
-    """A handler of the manager raised: the process is gone."""
+def _make_watcher(path):
+    """inotify instances are a per-user resource shared with every other
+    check running on this machine: wait (real time, outside the simulated
+    world) when none is left."""
+    for attempt in range(600):
+        try:
+            return _ObservedWatcher(path)
+        except OSError as err:
+            if err.errno != errno.EMFILE or attempt == 599:
+                raise
+            simkit.REAL_SLEEP(0.1)
+    raise HarnessError('unreachable')
 
 
 # ---------------------------------------------------------------------------
@@ -293,6 +303,7 @@ class World:
         self.failed = set()        # (inst, gen) whose injected failure fired
         self.links = {}
         self.writer_ready = False
+        self.unique_name_collisions = 0
 
         # supervision model
         self.sup = {}              # cname -> dict(alive)
@@ -306,7 +317,6 @@ class World:
         self.sync_unchanged = None
         self.cur_fail = None
         self.cfg_calls = 0
-        self.cache_ops_since_sync = 0
         self.mon = monitor.Monitor(env, None)
         self.mon._tombstones = collections.deque()   # as Monitor._configure
         self.h_cleanup = plugin_manager.load('treadmill.tombstones',
@@ -512,6 +522,10 @@ class World:
     def handler(self, actor, what, func, *args):
         """Run one handler of the code under test, then check the state."""
         self.log.ev('call', actor, what)
+        if actor == 'mgr' and what in ('created', 'deleted') and \
+                not os.path.basename(args[0]).startswith('.') and \
+                not (self.writer_ready and self.mgr_ready_evt):
+            self.probes['events_ignored_inactive'] += 1
         try:
             return func(*args)
         finally:
@@ -640,7 +654,7 @@ class World:
         self.mgr = appcfgmgr.AppCfgMgr(self.root, RUNTIME, None)
         # what AppCfgMgr.run() sets up before its loop
         self.mgr._is_active = False          # pylint: disable=protected-access
-        watch = _ObservedWatcher(self.tm_env.cache_dir)
+        watch = _make_watcher(self.tm_env.cache_dir)
         watch.observer = self._read_batch
         mgr = self.mgr
         watch.on_created = lambda p: self.handler(
@@ -787,11 +801,19 @@ class World:
             self.free_inos.append(old['ino'])
         self.vers += 1
         self.cache[inst] = {'gen': gen, 'ver': self.vers, 'bad': bad,
-                            'ctime_us': self.clock.us, 'ino': ino}
+                            'ctime_us': self.clock.us, 'ino': ino,
+                            'uname': None}
         self.live_inos[ino] = inst
         self.ino_last_owner[ino] = inst
-        self.cache_ops_since_sync += 1
-        self.log.ev('cache-put', inst, gen, ino, bad)
+        # provenance only: the name the real formula gives this generation
+        # (77 bits of (ctime us << 64 | inode ^ instance id << 31))
+        uname = appcfg.eventfile_unique_name(os.path.join(env.cache_dir,
+                                                          inst))
+        self.cache[inst]['uname'] = uname
+        rec = self.containers.get(uname)
+        if rec is not None and rec['gen'] != gen:
+            self.unique_name_collisions += 1
+        self.log.ev('cache-put', inst, gen, ino, bad, uname)
 
     def op_del(self, op):
         inst = op['inst']
@@ -799,7 +821,6 @@ class World:
             return
         os.unlink(os.path.join(self.tm_env.cache_dir, inst))
         self._forget_cache(inst)
-        self.cache_ops_since_sync += 1
         self.log.ev('cache-del', inst)
 
     def _notify(self):
@@ -1276,7 +1297,6 @@ def make_config(prop, tier, rng):
         'p_bad': rng.choice([0.0, 0.05, 0.15]),
         'p_ino_reuse': rng.choice([0.0, 0.3, 0.8]),
         'nuke_tombstones': rng.random() < 0.6,
-        'real_configure': True,
     }
 
 
@@ -1475,6 +1495,8 @@ class NodeSim(enginemod.Engine):
             res.sim_s = clock.peek() - t_begin
             res.faults = world.faults
             res.probes = world.probes
+            res.extra = {
+                'unique_name_collisions': world.unique_name_collisions}
             res.fps = world.fps
             res.nontrivial = world.nontrivial
             res.trace_fp = logmod.fingerprint(executed)
